@@ -35,6 +35,13 @@ CHECKS["C15"] = dict(text="TLC verifies the metric laws (symmetry, zero exactly 
     "points of {-2L..2L}^d; the implementation's outputs on integer points / cells (dyadic scales, points far outside the cell, exactly half a cell "
     "apart, anisotropic cells, stacks of L L^T precisions, mismatched cell dimension) are then required by TLC to EQUAL that reference function exactly.", ref="6/C15",
     tech="TLC exhaustive check of metric laws on the reference definition; exact TLC validation that recorded outputs equal the reference")
+CHECKS["C16"] = dict(text="TLC explores a step-machine transcription of QuickShift.fit (ascent with path list, early break, root propagation; both "
+    "the cut-off rule with nearest-neighbour fallback and the Gabriel-shell rule) for ALL placements of 3 (quick) / 4 (thorough) lattice points x all weight "
+    "orders x all cut-off assignments and checks that the final labelling is valid for the declarative reference relation (three-valued at exact "
+    "equalities), the heaviest point is a centre, labels are centres, and the code's Gabriel graph lies between the Must/May brute-force graphs; a "
+    "mutation demo must yield a counterexample. Real QuickShift fits (1-4 dimensions, duplicates, collinear sets, per-point cut-offs, shells 1-3, "
+    "scale, periodic cells) and their permuted / re-weighted / image-shifted variants are validated by TLC against the same reference.", ref="6/C16",
+    tech="implementation-shaped TLA+ step machine checked against a declarative reference (TLC); TLC validation of recorded fits incl. metamorphic variants")
 NA = {}
 def main():
     props = [json.loads(l)["id"] for l in open(os.path.join(HERE, "properties.jsonl"))]
